@@ -741,6 +741,11 @@ func (e *CEnv) evalCall(n *CCall) (CV, error) {
 		if t == nil {
 			return CV{}, cerr("as: unknown type %s", sl.Val)
 		}
+		// a view as the generic type G of a value whose static type is an instantiation G[A] keeps
+		// the instantiation: its fields live in the heap arrays of G[A], not in those of G's body
+		if v.GoT != nil && sameGenericOrigin(v.GoT, t) {
+			return v, nil
+		}
 		return CV{T: v.T, GoT: t}, nil
 	case "unbox": // unbox(x, "string"|"[]byte"|"pkg.T"): the non-reference value an interface holds when typeis(x, T)
 		if len(n.Args) != 2 {
@@ -985,6 +990,27 @@ func (ex *Exec) mapLen(present Term) Term {
 	k, _, _ := present.Sort.IsArray()
 	fn := ex.w.D.Fun("maplen!"+sortTag(k), []Sort{present.Sort}, SInt)
 	return App(SInt, fn, present)
+}
+
+// sameGenericOrigin: have is (a pointer to) an instantiation of the generic named type want (a pointer to).
+func sameGenericOrigin(have, want types.Type) bool {
+	hp, hok := types.Unalias(have).(*types.Pointer)
+	wp, wok := types.Unalias(want).(*types.Pointer)
+	if hok != wok {
+		return false
+	}
+	if hok {
+		have, want = hp.Elem(), wp.Elem()
+	}
+	hn, ok1 := types.Unalias(have).(*types.Named)
+	wn, ok2 := types.Unalias(want).(*types.Named)
+	if !ok1 || !ok2 {
+		return false
+	}
+	if wn.TypeParams() == nil || wn.TypeParams().Len() == 0 || (wn.TypeArgs() != nil && wn.TypeArgs().Len() > 0) {
+		return false
+	}
+	return hn.TypeArgs() != nil && hn.TypeArgs().Len() > 0 && hn.Origin() == wn
 }
 
 func (ex *Exec) lookupTypeByString(s string) types.Type {
